@@ -18,6 +18,9 @@
              i!<id>.<id>...;<id>.<id>.../<eof>
    c08.mpages <machine> <chunks> <ops>   multiPages: chunks (row groups) of one column separated by ";"
      machine: idx | noidx | spec          ops and answer as c08.pages, global row numbers
+   c08.cpages <machine> <chunks> <ops>   columnPages (Column.Pages() of a file): one page cursor per row group
+     machine: idx | noidx | upto_last (the seeded variant: SeekToRow does not rewind the row group
+              that was being read) | spec          chunks, ops and answer as c08.mpages
    c08.nested <machine> <nest> <chunks> <ops>   multiPages over the column of MultiRowGroup applied as <nest>
      says, e.g. (((0,1),2),3) over the chunks 0..3 (Cursor/Nested.v: the flattening of multiRowGroup.init)
      machine: idx | noidx | children_counts (row counts of the direct children) | spec
@@ -170,6 +173,19 @@ let () =
           | _ -> failwith "c08.mpages machine" in
         tok_of_list tok_of_out outs
     | _ -> failwith "c08.mpages args");
+  register "c08.cpages" (function
+    | [m; chunks; ops] ->
+        let chunks = chunks_of_tok chunks in
+        let ops = list_of_tok op_of_tok ops in
+        let outs =
+          match m with
+          | "idx" -> Model.run_cpages_indexed chunks ops
+          | "noidx" -> Model.run_cpages_noindex chunks ops
+          | "upto_last" -> Model.run_cpages_upto_last chunks ops
+          | "spec" -> Model.run_spec_noindex (List.concat chunks) ops
+          | _ -> failwith "c08.cpages machine" in
+        tok_of_list tok_of_out outs
+    | _ -> failwith "c08.cpages args");
   register "c08.nested" (function
     | [m; nest; chunks; ops] ->
         let chunks = Array.of_list (chunks_of_tok chunks) in
